@@ -41,7 +41,7 @@ def bip340_vectors(seed, tier):
             "bound": "the %d official BIP340 vectors shipped in /repo/buidl/test (32-byte messages)" % len(rows)}
 
 
-BOUNDED = [("rt-contracts", fuzz_job(CONTRACTS)), ("bip340-vectors", bip340_vectors)]
+BOUNDED = [("rt-contracts", fuzz_job(CONTRACTS, quick_budget_s=90, thorough_budget_s=600)), ("bip340-vectors", bip340_vectors)]
 CATEGORY = "proof"
 TECHNIQUE = ("contract-based deductive verification: pyvc VCs from the real pecc.py / phash.py source, z3 + zn_ring in the "
              "discrete-log theory of secp256k1 (polynomial normal forms mod N and mod P); bounded run-time contract companion + BIP340 vectors")
